@@ -383,7 +383,7 @@ def kani_crate(crate, prop, tier, scratch, only=None):
     if os.path.exists(export):
         os.remove(export)
     cmd = ['cargo', 'kani', '-p', crate, '-Z', 'function-contracts', '-Z', 'stubbing', '-Z', 'unstable-options',
-           '--exact', '-j', str(registry.JOBS), '--output-format', 'terse', '--export-json', export,
+           '--exact', '-j', str(registry.KANI_JOBS[tier]), '--output-format', 'terse', '--export-json', export,
            '--harness-timeout', '%ds' % (registry.HARNESS_TIMEOUT[tier])]
     for h in selected:
         cmd += ['--harness', h['full']]
